@@ -12,7 +12,8 @@ import time
 
 VERIF = os.path.dirname(os.path.dirname(os.path.abspath(__file__)))
 REPO = os.environ.get("VERIF_REPO", "/repo")
-CACHE = os.path.join(VERIF, ".cache")
+CACHE = os.environ.get("VERIF_CACHE") or os.path.join(VERIF, ".cache")
+EVIDENCE_DIR = os.environ.get("VERIF_EVIDENCE_DIR") or os.path.join(VERIF, "evidence")
 SYNJSON = os.path.join(VERIF, "engines/synjson/target/release/synjson")
 FACTDRV = os.path.join(VERIF, "engines/factdrv/target/release/factdrv")
 
@@ -304,16 +305,16 @@ def finish(run, t0, explanation, seed=0, replay_key=None):
             continue
         seen.add(o.key)
         print(f"KNOWN-FINDING: property={run.prop} {o.key} :: {known_keys[o.key].get('what_fails', o.detail)}")
-    os.makedirs(os.path.join(VERIF, "evidence", "replay"), exist_ok=True)
+    os.makedirs(os.path.join(EVIDENCE_DIR, "replay"), exist_ok=True)
     # remove stale replay files of this property
-    for p in glob.glob(os.path.join(VERIF, "evidence", "replay", f"{run.prop}-*.json")):
+    for p in glob.glob(os.path.join(EVIDENCE_DIR, "replay", f"{run.prop}-*.json")):
         try:
             os.remove(p)
         except OSError:
             pass
     rc = 0
     for i, o in enumerate(_dedup(unlisted)):
-        rp = os.path.join(VERIF, "evidence", "replay", f"{run.prop}-{i}.json")
+        rp = os.path.join(EVIDENCE_DIR, "replay", f"{run.prop}-{i}.json")
         with open(rp, "w") as fh:
             json.dump({"property": run.prop, "key": o.key, "rule": o.rule, "rule_text": run.rules.get(o.rule, ""),
                        "site_today": o.site, "detail": o.detail, "witness": o.witness}, fh, indent=1)
@@ -361,12 +362,13 @@ def finish(run, t0, explanation, seed=0, replay_key=None):
             "tree_hash": run.facts.hash,
             "engine_timing": run.facts.timing,
             "notes": run.notes,
+            **getattr(run, "extra_coverage", {}),
         },
         "assumptions": run.assumptions,
         "wall_s": round(time.time() - t0, 2),
         "violations": len(_dedup(unlisted)),
     }
-    with open(os.path.join(VERIF, "evidence", f"{run.prop}.json"), "w") as fh:
+    with open(os.path.join(EVIDENCE_DIR, f"{run.prop}.json"), "w") as fh:
         json.dump(ev, fh, indent=1)
     return rc
 
